@@ -56,3 +56,16 @@ Lemma mk_ccfg_times (r : craw) :
   c_rise (mk_ccfg r) = gen_rise_time (r_bw r) /\
   c_pj (mk_ccfg r) = gen_phase_jump_time (gen_rise_time (r_bw r)) (r_cpj r).
 Proof. rewrite phase_jump_time_eq, rise_time_eq. split; reflexivity. Qed.
+
+(** phase references (_basis_ref.py) *)
+From PV Require Import Model.Seq.
+
+Lemma update_last_used_eq (r : qref) (t : Z) :
+  r_used (update_last_used r t) = gen_update_last_used (r_used r) t.
+Proof. reflexivity. Qed.
+
+Lemma two_pi_literal : (f_of_Z 2 * 0x1.921fb54442d18p+1)%float = f2pi.
+Proof. vm_compute. reflexivity. Qed.
+
+Lemma phase_format_eq (phi : float) : gen_phase_format phi = f_mod2pi phi.
+Proof. unfold gen_phase_format, f_mod2pi. rewrite two_pi_literal. reflexivity. Qed.
